@@ -54,6 +54,11 @@ func main() {
 		dbgCty(p)
 		return
 	}
+	if *prop == "dbg-scc" {
+		p, _ := loadProg(*repo, "", false)
+		dbgSCC(p)
+		return
+	}
 	if *prop == "dbg-e2" {
 		p, _ := loadProg(*repo, "", false)
 		dbgMapRanges(p)
